@@ -15,20 +15,46 @@ SPEC = {
              "must come to end of ammo. In a quarter of the unbounded cells of the kinds that read their file while running (uri, uripost, raw, "
              "http/json lines, grpc/json, generic json) the good entries are followed by a malformed one, so that the provider stops by failing "
              "while the consumers are acquiring (class provider_failed_with_consumers_acquiring). "
-             "Non-trivial = a bound is hit (X finite) and the cell is not plain streaming uri; "
+             "Kinds with the chosencases option (the five HTTP formats with and without preload, grpc/json): in a third of their cells chosencases lists the tags "
+             "of a non-empty subset of the entries (optionally plus a tag nobody carries) and `entries` of the oracle is the number of chosen entries; in a sixth "
+             "it lists only a tag that no entry carries (unrelated, next index, near misses) - two thirds of those stream without a pass bound, so that nothing but "
+             "the cancel ends the provider: 1-4 consumers sit in Acquire, the cancel comes 0-20 ms after the start while the provider is reading its file "
+             "(class cancelled_while_scanning = Run had not returned by itself), Run must return within the hang deadline, the waiting and 0-2 late consumers "
+             "must see end of ammo, and no ammo may have been delivered; how a provider without any ammo ends by itself is not judged (C14's open question). "
+             "Entry sizes: kinds with a body or payload (uripost, raw, http/json, grpc/json) get bodies of 1-48 KiB in a fifth of their cells; http/json and "
+             "grpc/json get entries of 70-160 KiB (above bufio.MaxScanTokenSize, the documented default of maxammosize) in two fifths, always with maxammosize "
+             "256 KiB-4 MiB (class entries_over_64k; entries_over_64k_read_again = the bounds make the provider read that entry more than once); "
+             "maxammosize (4 KiB with tiny entries, 128 KiB, 1 MiB) is also set in 40 % of the other cells of the kinds that accept it. "
+             "Non-trivial = a bound is hit (X finite) and the cell is not plain streaming uri, or chosencases matches nothing; "
              "distinct = hash of the case. Every kind x bound-combination cell must occur (required classes)."),
-    "required_classes": ['TestBounds/uri/limit_only', 'TestBounds/uri/passes_only', 'TestBounds/uri/both', 'TestBounds/uri/none', 'TestBounds/uripost/limit_only', 'TestBounds/uripost/passes_only', 'TestBounds/uripost/both', 'TestBounds/uripost/none', 'TestBounds/raw/limit_only', 'TestBounds/raw/passes_only', 'TestBounds/raw/both', 'TestBounds/raw/none', 'TestBounds/jsonline/limit_only', 'TestBounds/jsonline/passes_only', 'TestBounds/jsonline/both', 'TestBounds/jsonline/none', 'TestBounds/jsonarray/limit_only', 'TestBounds/jsonarray/passes_only', 'TestBounds/jsonarray/both', 'TestBounds/jsonarray/none', 'TestBounds/grpc/json/limit_only', 'TestBounds/grpc/json/passes_only', 'TestBounds/grpc/json/both', 'TestBounds/grpc/json/none', 'TestBounds/http/scenario/limit_only', 'TestBounds/http/scenario/passes_only', 'TestBounds/http/scenario/both', 'TestBounds/http/scenario/none', 'TestBounds/grpc/scenario/limit_only', 'TestBounds/grpc/scenario/passes_only', 'TestBounds/grpc/scenario/both', 'TestBounds/grpc/scenario/none', 'TestBounds/json/limit_only', 'TestBounds/json/passes_only', 'TestBounds/json/both', 'TestBounds/json/none'],
+    "required_classes": ['TestBounds/uri/limit_only', 'TestBounds/uri/passes_only', 'TestBounds/uri/both', 'TestBounds/uri/none', 'TestBounds/uripost/limit_only', 'TestBounds/uripost/passes_only', 'TestBounds/uripost/both', 'TestBounds/uripost/none', 'TestBounds/raw/limit_only', 'TestBounds/raw/passes_only', 'TestBounds/raw/both', 'TestBounds/raw/none', 'TestBounds/jsonline/limit_only', 'TestBounds/jsonline/passes_only', 'TestBounds/jsonline/both', 'TestBounds/jsonline/none', 'TestBounds/jsonarray/limit_only', 'TestBounds/jsonarray/passes_only', 'TestBounds/jsonarray/both', 'TestBounds/jsonarray/none', 'TestBounds/grpc/json/limit_only', 'TestBounds/grpc/json/passes_only', 'TestBounds/grpc/json/both', 'TestBounds/grpc/json/none', 'TestBounds/http/scenario/limit_only', 'TestBounds/http/scenario/passes_only', 'TestBounds/http/scenario/both', 'TestBounds/http/scenario/none', 'TestBounds/grpc/scenario/limit_only', 'TestBounds/grpc/scenario/passes_only', 'TestBounds/grpc/scenario/both', 'TestBounds/grpc/scenario/none', 'TestBounds/json/limit_only', 'TestBounds/json/passes_only', 'TestBounds/json/both', 'TestBounds/json/none',
+                         'TestBounds/uri/cancelled_while_scanning', 'TestBounds/uripost/cancelled_while_scanning', 'TestBounds/raw/cancelled_while_scanning',
+                         'TestBounds/jsonline/cancelled_while_scanning', 'TestBounds/jsonarray/cancelled_while_scanning',
+                         'TestBounds/grpc/json/chosencases_match_nothing',
+                         'TestBounds/jsonline/entries_over_64k_read_again', 'TestBounds/jsonarray/entries_over_64k_read_again',
+                         'TestBounds/grpc/json/entries_over_64k_read_again'],
     "floors": {"TestBounds/preload": 0.15, "TestBounds/single_entry": 0.1, "TestBounds/through_engine": 0.2,
                "TestBounds/live_consumers": 0.07, "TestBounds/late_consumers": 0.04,
-               "TestBounds/provider_failed_with_consumers_acquiring": 0.012},
+               "TestBounds/provider_failed_with_consumers_acquiring": 0.012,
+               "TestBounds/chosencases_subset": 0.12, "TestBounds/chosencases_proper_subset": 0.06,
+               "TestBounds/chosencases_match_nothing": 0.06, "TestBounds/cancelled_while_scanning": 0.04,
+               "TestBounds/jsonline/cancelled_while_scanning": 0.004, "TestBounds/jsonarray/cancelled_while_scanning": 0.004,
+               "TestBounds/maxammosize_set": 0.2, "TestBounds/entries_1k_to_48k": 0.085,
+               "TestBounds/entries_over_64k": 0.06, "TestBounds/entries_over_64k_read_again": 0.037,
+               "TestBounds/grpc/json/entries_over_64k_read_again": 0.01, "TestBounds/jsonline/entries_over_64k_read_again": 0.011,
+               "TestBounds/jsonarray/entries_over_64k_read_again": 0.011},
     "manifest": {
         "technique": "property-based testing (rapid) over the provider-kind x bound matrix with a counting oracle and a hang watchdog",
         "text": ("For every generated cell the provider must deliver exactly min(limit, passes*entries) ammo (non-zero bounds only), then "
                  "consumers see end of ammo and Run returns nil without being cancelled; inside the engine the run ends successfully "
                  "with exactly that many shots; unbounded providers release all consumers and return promptly on cancel, also consumers that are acquiring "
-                 "when the cancel (or a decode failure) stops the provider and consumers that call Acquire only after Run has returned."),
+                 "when the cancel (or a decode failure) stops the provider and consumers that call Acquire only after Run has returned. "
+                 "The matrix includes chosencases (a subset of the entries: the bound formula counts the chosen entries; no entry at all: the provider is "
+                 "cancelled while it scans its file and must return promptly without having delivered anything), maxammosize, and entries of up to 160 KiB "
+                 "(above 64 KiB only with maxammosize raised) read for one or several passes."),
         "note": ("Hang verdicts use a 5 s deadline (normal completion < 10 ms) and require the provider to still be stuck after cancel "
                  "or to return only because of it. Scenario files are minimal hand-written YAML (n scenarios of weight 1)."),
     },
-    "assumptions": ["entries of scenario providers = scenarios of weight 1 in the ammo ring"],
+    "assumptions": ["entries of scenario providers = scenarios of weight 1 in the ammo ring",
+                    "with chosencases the `entries` of the bound formula are the entries carrying a listed tag (docs/eng/providers.md: 'use only \"tag1\" and \"tag2\" ammo for this test'; limit counts delivered ammo, passes counts file passes - as C14 asserts)"],
 }
